@@ -1,4 +1,36 @@
 import SpowtdModel.Model.Load
-/- Helper lemmas for Props/C10.lean and Props/C11.lean. -/
+import SpowtdModel.Lemmas.LoadASort
+import SpowtdModel.Lemmas.LoadAGrid
+import SpowtdModel.Lemmas.LoadAZone
+import SpowtdModel.Lemmas.LoadAIvs
+import SpowtdModel.Lemmas.LoadAWf
+/- Helper lemmas for Props/C10.lean and Props/C11.lean (see the LoadA*.lean files). -/
 namespace Spowtd
+
+/-- Boolean check of an accepted result (used by the non-vacuity examples) -/
+def okAnd {ε β : Type} (x : Except ε β) (P : β → Bool) : Bool :=
+  match x with
+  | .ok d => P d
+  | .error _ => false
+
+/-- Boolean check of a refusal (used by the non-vacuity examples) -/
+def refusedWith {β : Type} (x : Except LoadErr β) (e : LoadErr) : Bool :=
+  match x with
+  | .ok _ => false
+  | .error e' => e' == e
+
+theorem exists_ok_of_okAnd {ε β : Type} {x : Except ε β} {P : β → Bool}
+    (h : okAnd x P = true) : ∃ d, x = .ok d ∧ P d = true := by
+  cases x with
+  | error e => cases h
+  | ok d => exact ⟨d, rfl, h⟩
+
+theorem eq_error_of_refusedWith {β : Type} {x : Except LoadErr β} {e : LoadErr}
+    (h : refusedWith x e = true) : x = .error e := by
+  cases x with
+  | ok d => cases h
+  | error e' =>
+    simp only [refusedWith, beq_iff_eq] at h
+    rw [h]
+
 end Spowtd
